@@ -200,6 +200,11 @@ SetItemVerdict(e) ==
 MIx == INSTANCE MultivectorRef WITH
         CZero <- 0, COne <- 1, CAdd <- LAMBDA a, b : a + b, CMul <- LAMBDA a, b : a * b,
         CNeg <- LAMBDA a : 0 - a, CEq <- LAMBDA a, b : a = b, CScale <- LAMBDA k, a : k * a
+\* Gaussian integers <<re, im>>: complex coefficients (C19) through the ring-parameterised reference
+MGx == INSTANCE MultivectorRef WITH
+        CZero <- <<0, 0>>, COne <- <<1, 0>>, CAdd <- LAMBDA a, b : <<a[1] + b[1], a[2] + b[2]>>,
+        CMul <- LAMBDA a, b : <<a[1] * b[1] - a[2] * b[2], a[1] * b[2] + a[2] * b[1]>>,
+        CNeg <- LAMBDA a : <<0 - a[1], 0 - a[2]>>, CEq <- LAMBDA a, b : a = b, CScale <- LAMBDA k, a : <<k * a[1], k * a[2]>>
 RECURSIVE IPow(_, _)
 IPow(b, n) == IF n = 0 THEN 1 ELSE b * IPow(b, n - 1)
 AbsInt(n) == IF n < 0 THEN 0 - n ELSE n
@@ -224,6 +229,17 @@ CertVerdict(c, e) ==
            F == MIx!FromKV(c.d, e.F.keys, e.F.coefs)
        IN  IF \E B \in DOMAIN sq : B # 0 /\ sq[B] # 0 THEN "MACHINERY_operand_is_not_simple"
            ELSE IF \E B \in DOMAIN F : AbsInt(F[B] - series[B]) > e.tol THEN "exp_differs_from_the_power_series"
+           ELSE "ok"
+  ELSE IF e.cert = "expc" THEN
+       \* complex coefficients: X and F hold <<re, im>> pairs; the series is evaluated over the Gaussian integers
+       LET X == MGx!FromKV(c.d, e.X.keys, e.X.coefs)
+           sq == MGx!GP(c, X, X)
+           series == FoldSet(LAMBDA k, acc : MGx!Add(MGx!Scale((MGx!Fact(e.N) \div MGx!Fact(k)) * IPow(e.g, e.N - k), MGx!GPow(c, X, k)), acc),
+                             MGx!MVZero(c.d), 0 .. e.N)
+           F == MGx!FromKV(c.d, e.F.keys, e.F.coefs)
+       IN  IF \E B \in DOMAIN sq : B # 0 /\ sq[B] # <<0, 0>> THEN "MACHINERY_operand_is_not_simple"
+           ELSE IF \E B \in DOMAIN F : AbsInt(F[B][1] - series[B][1]) > e.tol \/ AbsInt(F[B][2] - series[B][2]) > e.tol
+                THEN "exp_differs_from_the_power_series"
            ELSE "ok"
   ELSE "unknown_certificate"
 
